@@ -52,4 +52,14 @@ CHECKS.update({
         note="the derivation finder is trusted for completeness only (soundness is kernel-checked); anchor lists are hand-written oracles",
         technique="Lean 4 proof by kernel evaluation of regenerated table obligations + exhaustive registry correspondence"),
 })
+CHECKS.update({
+    'C11': dict(
+        text="Lean 4 theorems about the transcription of QuantityArguments::fmt and Debug for Quantity (output = storage type's formatting of the converted value, one space, label; abbreviation always / singular iff the converted value is one / plural otherwise; flags reach the output only through the value's formatter; Debug appends exactly one ` <abbr>^<exp>` per non-zero exponent in system order). Correspondence: real output compared with format!(spec, x) of the model-predicted converted value x (bit-exact against from_base) over a spec grid × styles × entry points × values × 7 storage/base combinations, every unit of every quantity, Debug in three base-unit sets",
+        note="the theorems are thin (the property is the definition); the storage type's own formatting is the oracle's parameter; labels come from the regenerated table",
+        technique="Lean 4 proof (thin) over a transcribed formatter + correspondence check against the storage type's own formatting"),
+    'C12': dict(
+        text="Lean 4 theorems about the transcription of FromStr: success iff ⟨number⟩ U+0020 ⟨registered label, blanks trimmed⟩ and then = new in that unit; error precedence no-separator > bad-number > unknown-unit (three iff theorems); total; format-then-parse round trip; kernel-decided per-quantity table obligations regenerated every run (a label never denotes two conversions under the first-match rule; no label begins/ends with White_Space). Correspondence: all 7 611 labels × number forms × mutations, foreign labels, random unicode strings, three base/storage combinations, format-then-parse oracle",
+        note="V::from_str is a parameter; the White_Space set of str::trim is transcribed; one defect found and fixed (leading blank in a plural name)",
+        technique="Lean 4 proof (decision logic of the parser + kernel-decided label tables) + correspondence check"),
+})
 NOT_APPLICABLE = {}
